@@ -158,6 +158,9 @@ func termList(ts []*Term) string {
 }
 
 func checkC11(p *Program, r *Report) {
+	// round 6 (systematic): no unguarded mutable package-level state behind this property's functions (§2.9)
+	sharedStateRule(p, r, NewEffects(p), "C11.shared", []string{"merkleblock/encode.go", "bloom/merkleblock.go", "block.go"})
+	r.Floor("C11.shared", 0)
 	// round 5 (C11-agent5-m3): the leaves of every builder are block.Transactions(); that wrapper k IS transaction k
 	// of the message is C16's index clause
 	defer func() {
